@@ -193,13 +193,15 @@ def run(res):
 
 def run_mode_argv(res, rnd):
     """main.py -r PROG ...: PROG must see the forwarded words verbatim"""
-    n = 12 if res.tier == 'quick' else 200
+    n = 30 if res.tier == 'quick' else 300
     helper = os.path.join(common.BUILD, 'argv_helper.py')
     with open(helper, 'w') as f:
         f.write('import sys, json, os\nopen(os.environ["WDV_OUT"], "w").write(json.dumps(sys.argv[1:]))\n')
     outp = os.path.join(common.BUILD, 'argv_helper.out')
     for _ in range(n):
         words = [rnd.choice(WORDS + MARKERS + FLAGS) for _ in range(rnd.choice([0, 1, 2, 4]))]
+        if rnd.random() < 0.3:
+            words.insert(rnd.randrange(len(words) + 1), '--')       # a `--` that belongs to the program
         words = [w for w in words if '\x00' not in w]
         env = dict(os.environ, WDV_OUT=outp, PYTHONPATH=common.REPO)
         if os.path.exists(outp):
